@@ -214,6 +214,28 @@ func genHistory(rng *h.Rng, st h.Stats) string {
 					copy(nv, v) // shares a prefix with the old value
 					set(k, nv)
 					st.Inc("mut-flip-embedded-hashed")
+				case c == 6:
+					// same bytes, different length: trailing zero bytes appended or stripped, or a prefix kept
+					// (a fingerprint of the value that forgets its length would call this a hit)
+					var nv []byte
+					switch rng.Intn(4) {
+					case 0:
+						nv = append(append([]byte{}, v...), make([]byte, 1+rng.Intn(3))...)
+					case 1:
+						nv = append([]byte{}, v...)
+						for len(nv) > 0 && nv[len(nv)-1] == 0 {
+							nv = nv[:len(nv)-1]
+						}
+						if len(nv) == len(v) && len(nv) > 0 {
+							nv[len(nv)-1] = 0
+						}
+					case 2:
+						nv = make([]byte, rng.Intn(4)) // all-zero value of length 0..3
+					default:
+						nv = append([]byte{}, v[:len(v)/2]...)
+					}
+					set(k, nv)
+					st.Inc("mut-same-bytes-other-length")
 				case c <= 7:
 					del(k)
 					st.Inc("mut-remove")
